@@ -8,4 +8,6 @@ for id in $(python3 -c "import json;print(' '.join(c['property_id'] for c in jso
   out=$(./check "$id" "$TIER" 2>&1); rc=$?
   echo "rc=$rc $(($(date +%s)-start))s $(echo "$out" | grep -E "^$id $TIER:" | tail -1)"
   echo "$out" | grep -E '^(VIOLATION|machinery)' | head -5
+  # keep a copy of the thorough evidence (evidence/ itself is rewritten by every run)
+  if [ "$TIER" = thorough ] && [ $rc -eq 0 ]; then mkdir -p evidence-thorough; cp "evidence/$id.json" "evidence-thorough/$id.json"; fi
 done
